@@ -891,8 +891,11 @@ NDET_CALLS = {"id", "hash", "random.random", "random.choice", "random.shuffle", 
               "time.time", "time.time_ns", "time.monotonic", "time.perf_counter", "datetime.now", "datetime.today",
               "datetime.utcnow", "date.today", "os.getenv", "os.listdir", "os.scandir", "os.urandom", "os.getpid",
               "uuid.uuid4", "uuid.uuid1", "glob.glob", "glob.iglob", "object.__hash__", "os.walk", "tempfile.mkdtemp",
-              "secrets.token_hex", "threading.get_ident", "os.times"}
-NDET_METHODS = {"glob", "iterdir", "rglob"}
+              "secrets.token_hex", "threading.get_ident", "os.times",
+              # results in the order in which concurrent work happens to finish
+              "as_completed", "concurrent.futures.as_completed", "futures.as_completed", "concurrent.futures.wait", "futures.wait",
+              "asyncio.as_completed", "asyncio.wait", "select.select"}
+NDET_METHODS = {"glob", "iterdir", "rglob", "imap_unordered", "as_completed"}
 
 
 def rule_ndet1(ctx: Ctx) -> RuleResult:
